@@ -1,5 +1,6 @@
 /* cv and block may live in one object (chunk_state_output passes self->cv, self->buf) */
 void harness(void) {
+  VERIF_PROLOGUE();
   blake3_chunk_state s; /* nondeterministic contents */
   uint32_t other_cv[8];
   uint8_t other_block[64];
